@@ -155,8 +155,8 @@ class Shadow:
         if node == root or node == m:
             return False
         is_map = node in self.mp
-        if is_map and m in self.sub(node):
-            return False
+        if is_map and (m in self.sub(node) or self.target(m, p) in self.sub(node)):
+            return False        # (no cycles: neither the receiver nor the map the key leads to lies below the node)
         if node in self.held:
             pl = self.places(node)
             moved = moves and m in self.sub(root) and len(pl) == 1 and all(x != root and x not in self.held for x, _n in pl)
